@@ -6,8 +6,8 @@ cd "$(dirname "$0")/.."
 for p in $ids; do
   [ -f checks/$(echo $p | tr 'C' 'c').py ] || continue
   s=$(date +%s)
-  timeout 3000 ./check $p --tier $tier > /tmp/runall_$p.log 2>&1; rc=$?
+  timeout 3000 ./check $p --tier $tier > ${RUNALL_LOGDIR:-/tmp}/runall_$p.log 2>&1; rc=$?
   e=$(date +%s)
-  echo "$p rc=$rc $((e-s))s $(tail -1 /tmp/runall_$p.log | cut -c1-160)"
-  grep "^VIOLATION\|^INCONCLUSIVE\|^BROKEN\|^KNOWN" /tmp/runall_$p.log | cut -c1-200 | head -5
+  echo "$p rc=$rc $((e-s))s $(tail -1 ${RUNALL_LOGDIR:-/tmp}/runall_$p.log | cut -c1-160)"
+  grep "^VIOLATION\|^INCONCLUSIVE\|^BROKEN\|^KNOWN" ${RUNALL_LOGDIR:-/tmp}/runall_$p.log | cut -c1-200 | head -5
 done
